@@ -51,7 +51,7 @@ def _job(a):
 
 
 def run(ctx):
-    nseeds = ctx.n(2, 30)
+    nseeds = ctx.n(4, 30)
     jobs = []
     for mode in (0, 1):
         exe = build(ctx, bool(mode))
